@@ -630,7 +630,7 @@ fn node_spec(eps: &[GEndpoint]) -> String {
         .join(";")
 }
 
-fn gen_case(r: &mut Rng, out: &mut Out, nx: usize, case_id: u64) -> Vec<String> {
+fn gen_case(r: &mut Rng, out: &mut Out, nx: usize, _case_id: u64) -> Vec<String> {
     let mut ops: Vec<String> = Vec::new();
     // access control: 1-2 fabrics, a few entries of decreasing generosity
     let nf = r.range(1, 2);
@@ -958,11 +958,12 @@ fn gen_case(r: &mut Rng, out: &mut Out, nx: usize, case_id: u64) -> Vec<String> 
                             let c = &e.clusters[r.below(e.clusters.len() as u64) as usize];
                             cl = Some(c.id as u64);
                             let enabled: Vec<u32> = c.evs.iter().filter(|l| c.fm & (1 << (l.id % 32)) != 0).map(|l| l.id).collect();
-                            if !enabled.is_empty() {
+                            if !enabled.is_empty() && r.chance(5, 6) {
                                 ev = Some(*r.pick(&enabled) as u64);
-                            } else if case_id % 2500 == 7 && case_id < 10000 {
-                                // a concrete path naming an absent event (known finding C06-absent-event-silent)
-                                ev = Some(9);
+                            } else if r.chance(1, 2) {
+                                // a concrete path naming an event the cluster does not have: UnsupportedEvent
+                                // (fixed finding C06-absent-event-silent; also disabled ids)
+                                ev = Some(*r.pick(&[9u64, 0, 1, 2, 7]));
                             }
                         } else {
                             cl = Some(99);
@@ -979,11 +980,10 @@ fn gen_case(r: &mut Rng, out: &mut Out, nx: usize, case_id: u64) -> Vec<String> 
                         3 => { cl = None; ev = None; }
                         _ => {}
                     }
-                    // never (outside the marked cases) a concrete path to an event the cluster lacks
                     if let (Some(e), Some(c), Some(v)) = (ep, cl, ev) {
                         let ok = eps.iter().any(|x| x.id as u64 == e && x.clusters.iter().any(|y| y.id as u64 == c && y.evs.iter().any(|l| l.id as u64 == v && y.fm & (1 << (l.id % 32)) != 0)));
-                        if exists_ec && !ok && !(case_id % 2500 == 7 && case_id < 10000) {
-                            ev = None;
+                        if exists_ec && !ok {
+                            out.stat("path_v_absent_event", 1);
                         }
                     }
                     out.stat(&format!("path_v_{}{}{}", if ep.is_some() { "E" } else { "*" }, if cl.is_some() { "C" } else { "*" }, if ev.is_some() { "L" } else { "*" }), 1);
